@@ -56,8 +56,7 @@ def run(tier):
             ck.fail("trace of %s buffering rejected by IncHash.tla" % m, rej)
         ntr += runs
         ck.cov["evaluations"] += nev
-    if thorough:
-        _apalache(ck)
+    _apalache(ck)
     ck.cov["traces_validated_against_impl"] = ntr
     ck.cov["distinct_nontrivial"] = nsplits
     ck.cov["exhaustive"] = True
@@ -78,7 +77,7 @@ def _apalache(ck):
     res = []
     for args in (["--init=Init", "--inv=IndInv", "--length=0"], ["--init=IndInit", "--inv=IndInv", "--length=1"]):
         rc, out = sh(["timeout", "600", "apalache-mc", "check", "--out-dir=" + od] + args + ["IncHashInd.tla"], cwd=SPEC, timeout=700)
-        ok = "The outcome is: NoError" in out
+        ok = "EXITCODE: OK" in out
         res.append({"args": args, "ok": ok})
         if not ok:
             raise ToolError("Apalache did not discharge the inductive invariant: %s\n%s" % (args, out[-1500:]))
